@@ -26,7 +26,9 @@ THEOREMS = ["C07_account", "C07_account_none_twice", "C07_run_completes", "C07_i
             "C07_started_delivered_or_in_flight", "C07_busy_span", "C07_unbusy_stamp", "C07_fifo_start", "C07_direct_start",
             "C07_fifo_order", "C07_zero_jitter_preserves_order", "C07_queue_limit", "C07_links_independent",
             "C07_multi_transfer", "C07_multi_channel_wf", "C07_new_instance_starts_idle", "C07_created_idle",
-            "C07_multi_run_completes"]
+            "C07_multi_run_completes", "C07_run_over_cqueue_eq_run_over_spec", "C07_single_over_cqueue_eq_over_spec",
+            "C07_multi_over_cqueue_eq_over_spec", "C07_account_cq", "C07_delivery_time_cq", "C07_busy_span_cq",
+            "C07_fifo_order_cq", "C07_links_independent_cq", "C07_multi_run_completes_cq"]
 QUICK_N = 3000; THOROUGH_N = 200000
 XCHECK_N = 40
 CLAIM = dict(
@@ -48,7 +50,10 @@ CLAIM = dict(
          "run time -- the instance, samples and log of channel c are those of the single-channel run with c's metrics on c's own part "
          "of the script, so all of the above holds per channel whatever the other channels are and carry; an instance comes into "
          "being on first use, idle whatever state its template is in; the shared loop runs dry within the runner's fuel for every "
-         "script (the sum of the per-channel termination measures decreases with every event). "
+         "script (the sum of the per-channel termination measures decreases with every event); (composition with C01) the same loop "
+         "over the calendar-queue model (cq_new n t, add, fetch_next) computes exactly the same channel records, logs and output "
+         "line for every n, t >= 1, by forward simulation with C01's relation R, so every statement above holds of the run over "
+         "the calendar queue. "
          "The model (send_message, unbusy, drop handling, the Unbusy/Exit/wake-up events ordered by the two-list event-set "
          "specification that C01 proves the calendar queue refines) is tied to des on every run by differential execution against the "
          "real Sim/Channel API (two modules joined by 1..3 links, both sending and receiving, links built from own / shared / live "
@@ -68,7 +73,8 @@ CLAIM = dict(
          "are out of scope.",
     technique="Coq invariant proofs over a closed event loop on the C01 event-set specification (trace well-formedness predicate, "
               "count-based multiset accounting, timing and order invariants, termination measure; projection of the shared event set onto "
-              "one channel's own event set as a stuttering simulation) + differential correspondence check "
+              "one channel's own event set as a stuttering simulation; forward simulation of the loop over the calendar queue by the loop "
+              "over the event-set specification with C01's relation) + differential correspondence check "
               "+ refutation witnesses for the pinned variants",
     design="6/C07")
 RULE = ("scripts from a structured generator: bitrate in {0,1,8,1e3,1e9,2e12,usize::MAX,random}, total sizes {64,65,1088,65600}, "
